@@ -514,6 +514,53 @@ func c01(x *mon.Ctx) {
 	}
 	x.Require("in-place-edit-after-verification", 0, 250, 5*74)
 
+	c01KeyCollisions(x)
+
+	// ---- many distinct quotes of one platform, then the first ones again (see manyThenAgain): every in-between quote carries a
+	//      fresh QE report signature and a fresh body signature by a fresh attestation key
+	{
+		r := x.Rand("scale")
+		w := world.Honest(r, world.HonestOpts{Shape: world.QuoteShape{AuthLen: 32}})
+		var early []*world.Case
+		add := func(w2 *world.World, name, expect string) {
+			c := w2.Case(world.LBase, "", name)
+			c.Expect, c.ShadowSkip = expect, true
+			early = append(early, c)
+		}
+		add(w, "honest", "accept")
+		for k := 0; k < 24; k++ {
+			w2 := w.Clone()
+			switch k % 4 {
+			case 0: // QE report signed by a key that is not the leaf's
+				w2.Q.SignQE(world.NewKey())
+				add(w2, fmt.Sprintf("qe-report-signed-by-foreign-key/%d", k), "reject")
+			case 1: // body signed by a key other than the attestation key the QE report vouches for
+				w2.Q.SignBody(world.NewKey())
+				add(w2, fmt.Sprintf("body-signed-by-foreign-key/%d", k), "reject")
+			case 2: // another attestation key, bound and signed consistently, but the QE report signature is the old one
+				att := world.NewKey()
+				w2.Q.AttPub = world.RawPub(&att.PublicKey)
+				w2.Q.BindQE()
+				w2.Q.SignBody(att)
+				add(w2, fmt.Sprintf("attestation-key-replaced-stale-qe-signature/%d", k), "reject")
+			case 3:
+				w2.Att = world.NewKey()
+				w2.Q.AttPub = world.RawPub(&w2.Att.PublicKey)
+				w2.Requote()
+				add(w2, fmt.Sprintf("honest-other-attestation-key/%d", k), "accept")
+			}
+		}
+		manyThenAgain(x, "many-quotes-then-the-first-again", early, x.Pick(70000, 300000), func(i int) *world.Case {
+			w2 := w.Clone()
+			w2.Att = world.NewKey()
+			w2.Q.AttPub = world.RawPub(&w2.Att.PublicKey)
+			n := len(w2.Q.Body)
+			w2.Q.Body[n-1], w2.Q.Body[n-2], w2.Q.Body[n-3] = byte(i), byte(i>>8), byte(i>>16) // REPORTDATA, the last field of the TD body
+			w2.Requote()
+			return w2.Case(world.LBase, "", "")
+		})
+	}
+
 	// ---- (c) random multi-byte mutants, reference decides
 	nm := x.Pick(3000, 200000)
 	x.Each(nm, func(i int) {
